@@ -524,3 +524,45 @@ func ParseOpt(b []byte, opt Options) Result {
 	}
 	return m.res
 }
+
+// Stream is the incremental form used by refterm: bytes arrive in arbitrary
+// writes; completed items are returned as soon as they are complete (text is
+// flushed at the end of every Feed, holding back only an incomplete scalar).
+type Stream struct {
+	m    machine
+	pend []byte
+	off  int
+}
+
+func NewStream() *Stream { return &Stream{} }
+
+// InString reports whether the automaton is inside a control string or
+// sequence (used to know whether a Write ended mid-sequence).
+func (s *Stream) InSequence() bool { return s.m.st != sGround }
+
+func (s *Stream) Feed(b []byte) []Item {
+	buf := append(s.pend, b...)
+	s.pend = nil
+	i := 0
+	for i < len(buf) {
+		if !utf8.FullRune(buf[i:]) {
+			// incomplete scalar at the end: hold it back
+			s.pend = append([]byte{}, buf[i:]...)
+			break
+		}
+		r, n := utf8.DecodeRune(buf[i:])
+		if r == utf8.RuneError && n <= 1 {
+			s.off++
+			s.m.step(Rune{R: rune(buf[i]), End: s.off, Invalid: true})
+			i++
+			continue
+		}
+		i += n
+		s.off += n
+		s.m.step(Rune{R: r, End: s.off})
+	}
+	s.m.flushRun(s.off)
+	out := s.m.res.Items
+	s.m.res.Items = nil
+	return out
+}
